@@ -1,0 +1,13 @@
+//go:build verif
+
+package h2c
+
+import "crypto"
+
+// Verification hooks: thin forwarders to unexported helpers, only built
+// with `-tags verif`.  No logic lives here.
+
+// VerifExpandMessageXMD forwards to expandMessageXMD.
+func VerifExpandMessageXMD(out []byte, hFunc crypto.Hash, domainSeparator, message []byte) error {
+	return expandMessageXMD(out, hFunc, domainSeparator, message)
+}
